@@ -94,6 +94,8 @@ func optsString(os []httphead.Option) string {
 }
 
 type hsClient struct {
+	HdrForm    int  // how the extra header text is handed over: 0 HandshakeHeaderString, 1 HandshakeHeaderBytes, 2 HandshakeHeaderFunc
+	OnHeaderCb bool // Dialer.OnHeader is set and records every header it is given
 	HTTPHeader bool // the extra headers are an http.Header of eight names given through ws.HandshakeHeaderHTTP
 	Protocols  []string
 	Exts       []extSpec
@@ -114,6 +116,7 @@ type hsClient struct {
 }
 
 type hsServer struct {
+	HdrForm      int  // as hsClient.HdrForm, for Upgrader.Header
 	HTTPHeader   bool // Upgrader only: extra response headers as an http.Header of eight names through ws.HandshakeHeaderHTTP
 	Kind         int  // 0 Upgrader 1 HTTPUpgrader 2 DebugUpgrader
 	Proto        int  // 0 nil 1 accept none 2 accept ProtoVal 3 accept all
@@ -221,6 +224,8 @@ func drawHS(r *eng.Run) (hsClient, hsServer) {
 	if r.T.Chance(sim.LCfg, 1, 4) {
 		c.Host = "override.example:8080"
 	}
+	c.HdrForm = []int{0, 0, 1, 2}[r.T.Int(sim.LCfg, 4)]
+	c.OnHeaderCb = r.T.Chance(sim.LCfg, 1, 4)
 	if r.T.Chance(sim.LCfg, 1, 8) {
 		// The extra headers are given as an http.Header (eight names)
 		// through the HandshakeHeaderHTTP adapter.
@@ -273,6 +278,7 @@ func drawHS(r *eng.Run) (hsClient, hsServer) {
 		s.RejectStatus = []int{0, 400, 401, 403, 500, 503}[r.T.Int(sim.LFault, 6)]
 		s.RejectBare = s.RejectStatus != 0 && r.T.Chance(sim.LFault, 1, 3)
 	}
+	s.HdrForm = []int{0, 0, 1, 2}[r.T.Int(sim.LCfg, 4)]
 	if s.Kind != 1 && r.T.Chance(sim.LCfg, 1, 8) {
 		s.Header, s.HTTPHeader = "", true
 		r.Probe("extra_headers_through_the_http_header_adapter")
@@ -493,7 +499,7 @@ func (s hsServer) upgrader() ws.Upgrader {
 		u.Negotiate = s.negotiate(flate)
 	}
 	if s.Header != "" {
-		u.Header = ws.HandshakeHeaderString(s.Header)
+		u.Header = headerIn(s.HdrForm, s.Header)
 	}
 	if s.HTTPHeader && s.Header == "" {
 		u.Header = ws.HandshakeHeaderHTTP(manyHeaders("X-Server-"))
@@ -649,7 +655,17 @@ func (c hsClient) dialer() ws.Dialer {
 		d.Extensions = append(d.Extensions, e.Option())
 	}
 	if c.Header != "" {
-		d.Header = ws.HandshakeHeaderString(c.Header)
+		d.Header = headerIn(c.HdrForm, c.Header)
+	}
+	if c.OnHeaderCb {
+		if !c.StatusCb {
+			lastStatusSeen = nil
+		}
+		d.OnHeader = func(k, v []byte) error {
+			// (The arguments are only valid during the call: copied here.)
+			lastStatusSeen = append(lastStatusSeen, []byte("H:"+string(k)+"="+string(v)+"|")...)
+			return nil
+		}
 	}
 	if c.HTTPHeader && c.Header == "" { // (a scenario that adds header lines of its own uses the string form)
 		d.Header = ws.HandshakeHeaderHTTP(manyHeaders("X-Client-"))
@@ -777,7 +793,7 @@ func runClientConn(r *eng.Run, c hsClient, p net.Conn, sent func() []byte, restL
 		}
 	}
 	o.Protocol, o.Exts = hs.Protocol, hs.Extensions
-	if c.StatusCb {
+	if c.StatusCb || c.OnHeaderCb {
 		o.StatusSeen = lastStatusSeen
 	}
 	o.Written = c.wire(sent())
@@ -847,6 +863,28 @@ func pipeFor(r *eng.Run, in []byte, seg int) *Pipe {
 // clientSeed, when set, is the math/rand seed in force for dialer runs on
 // scripted pipes (needed to repeat a Dial with the same nonce).
 var clientSeed *int64
+
+// headerIn wraps header text in one of the library's HandshakeHeader adapters.
+func headerIn(form int, text string) ws.HandshakeHeader {
+	switch form {
+	case 1:
+		return ws.HandshakeHeaderBytes([]byte(text))
+	case 2:
+		return ws.HandshakeHeaderFunc(func(w io.Writer) (int64, error) {
+			// An application's writer function: line by line.
+			var total int64
+			for _, l := range strings.SplitAfter(text, "\r\n") {
+				n, err := io.WriteString(w, l)
+				total += int64(n)
+				if err != nil {
+					return total, err
+				}
+			}
+			return total, nil
+		})
+	}
+	return ws.HandshakeHeaderString(text)
+}
 
 // manyHeaders is an application's http.Header with eight names.
 func manyHeaders(prefix string) http.Header {
